@@ -172,7 +172,8 @@ for _mean, _m, _mp in ((False, False, False), (True, False, False), (False, True
                             "self_only": {7: [(0, 6), (1, 7)], 8: [(0, 7), (1, 8)]},
                             "unfold": _roll_unf(_m), "lemmas": ["val == X(i + 1)"]}},
               "ensures": [x.replace("out[", "result[") for x in _rs_main("len(group_key)", _m, _mean)[3:5]]},
-             specs=ROLL_SPECS, setup=_late_chunkval, props=("C09", "C06", "C05"), lemma_deps=("L-nncount", "L-cnt-bound"))
+             specs=ROLL_SPECS, setup=_late_chunkval, props=("C09",) + (("C05",) if _m else ()) + (("C06",) if not _m and not _mean else ()), lemma_deps=("L-nncount", "L-cnt-bound"),
+             thorough_only=(_mean != _m))
 
 # ----------------------------------------------------------------------------- min_or_max_and_position and _rolling_max_or_min_1d
 # min_or_max_and_position: the result is null iff every entry is null; otherwise it IS an entry (witness: ghost slot gw) and bounds every non-null entry.
@@ -258,7 +259,8 @@ for _wm in (True, False):
         register(NUMBA, "_rolling_max_or_min_1d", f"float,chunked,mask={'bool' if _m else 'None'},{'max' if _wm else 'min'},min_periods={'int' if _mp else 'None'}",
                  {"group_key": "arr:int:int64", "values": "chunks:float:float64", "ngroups": "int", "window": "int", "min_periods": "int" if _mp else "none", "mask": "arr:bool:bool" if _m else "none",
                   "null_value": "float", "want_max": f"const:{_wm}"}, _rmm_contract(_wm, _m, _mp), specs=_RMM_SPECS, setup=_late_chunkval, callees=_momp_callee(_wm),
-                 props=("C09", "C06", "C12") + (("C05",) if _m and _wm else ()), lemma_deps=("L-nncount", "L-nnzero", "L-cnt-bound"))
+                 props=("C09",) + (("C12", "C06") if _wm and not _m else ()) + (("C05",) if _m and not _wm else ()), lemma_deps=("L-nncount", "L-nnzero", "L-cnt-bound"),
+                 thorough_only=(_wm == _m))         # quick: [max, no mask] and [min, mask]; thorough: all four
 
 # ----------------------------------------------------------------------------- EMA kernels (emas.py)
 # Specification (from the statement of C10, as the decayed-sum recursion; L-ema proves recursion == closed-form weighted mean):
